@@ -50,6 +50,7 @@ class OpCode(Enum):
     VECTOR_DIV_SCALAR = 0x1_2005
 
     MATRIX_MUL_MATRIX = 0x1_3004
+    MATRIX_MUL_VECTOR = 0x1_3104
 
     # comparison
     CMP_GT = 0x1_0100
